@@ -302,6 +302,33 @@ def c_last(c):
     return c
 
 
+def r8(ctx):
+    """fixed-width integers: the limits keep the integer type they were given (np.int8 ... np.int32 limits are legal), so
+    the box arithmetic must not multiply two limit-derived values (an area `nx * ny` wraps around silently) — the
+    may-be-integer dataflow of C01.R9 over every method, with the four limits as the integer-typed sources."""
+    from .c01 import _DtypeLint
+    m = ctx.model
+    ci = m.cls('RegionBoundingBox')
+    lint = _DtypeLint(ctx, m, coord_attrs=FIELDS)
+    n = 0
+    for name, f in sorted(ci.methods.items()):
+        base = name.split('.')[0]
+        if base in ('__repr__', '__str__', 'as_artist', 'plot', 'to_region'):
+            continue
+        n += 1
+        before = len(lint.problems)
+        lint.fn(f, ['scalar'] * len(f.node.args.args))
+        new = lint.problems[before:]
+        if new:
+            fi, node, text = new[0]
+            ctx.bad(f'RegionBoundingBox.{name}', 'integer-overflow',
+                    f'{text}: limits given as fixed-width numpy integers make the product wrap around (a 256 x 256 overlap '
+                    'with int16 limits has "area" 0), so the result is not the integer-rectangle answer', fi.loc(node))
+        else:
+            ctx.ok(f'RegionBoundingBox.{name}', 'no product/power of limit-derived integers')
+    ctx.need(n >= 8, 'RegionBoundingBox methods', f'only {n} analysed')
+
+
 RULES = [
     RuleDef('R1', 'union is the smallest enclosing box on every order type', r1, 3),
     RuleDef('R2', 'intersection = common pixels, None iff none, on every order type', r2, 1),
@@ -309,4 +336,5 @@ RULES = [
     RuleDef('R4', 'from_float rounding', r4, 2),
     RuleDef('R5', 'overlap slices: windows and (None, None) condition', r5, 2),
     RuleDef('R6', 'constructor guards; __eq__ over four corners', r6, 2),
+    RuleDef('R8', 'fixed-width integer limits: no product/power of limit-derived values in the box arithmetic', r8, 8),
 ]
